@@ -422,7 +422,9 @@ def gen_harness(w, modprefix, kinds=None):
         h = 'accessor_%s' % nm
         out += ['    #[kani::proof]', '    fn %s() {' % h, '      unsafe {', '        let mut obj: %s = core::mem::zeroed();' % nm,
                 '        let p: usize = kani::any();', '        %s = p as *const %s;' % (ptr_place, owner_tab),
-                '        assert_eq!(obj.vftable() as usize, p);', '      }', '    }']
+                '        assert_eq!(obj.vftable() as usize, p);',
+                '        // the accessor is typed with the table type the resolved model gives this type (a mismatch is a compile error here)',
+                '        let typed_accessor_result: *const %s = obj.vftable();' % tshort, '      }', '    }']
         names.append(h)
     # ---- forwarded virtual functions of non-first bases and AsRef (C07)
     for path, it in sorted(items.items()):
